@@ -801,6 +801,15 @@ func (e *Enc) callSiteAsserts(x *ssa.Call, cc *callCtx) {
 		}
 		env := e.specEnv(e.cur, extra)
 		env.errCtx = "call-site assert at " + name
+		var inner *loopInfo
+		for _, li := range e.loops {
+			if li.body[e.cur] && li.headSt != nil && (inner == nil || len(li.body) < len(inner.body)) {
+				inner = li
+			}
+		}
+		if inner != nil {
+			env.iter = inner.headSt
+		}
 		t := env.boolExpr(ca.C.E)
 		nm := ca.C.Name()
 		if nm == "" {
